@@ -224,7 +224,7 @@ fn gen_period(run_seed: u64, target: &str, c: &mut Rng, o: &mut Rng) -> Plan {
     };
     let (k1, k2) = (1 + o.below(4), 2 + o.below(5));
     touch_b(o, &mut ops, k1);
-    let period: u64 = if c.below(4) == 0 { 256 } else { 65_536 };
+    let period: u64 = if c.below(2) == 0 { 256 } else { 65_536 };
     let m = match c.below(8) {
         0 => period + 1,
         1 => period,
@@ -252,7 +252,7 @@ impl World for SatWorld {
         let mut c = Rng::stream(run_seed, "config");
         let mut o = Rng::stream(run_seed, "ops");
         let mut s = Rng::stream(run_seed, "schedule");
-        if c.below(800) == 0 {
+        if c.below(1000) == 0 {
             return gen_period(run_seed, target, &mut c, &mut o);
         }
         // mostly up to 6 variables / 8 clauses; one run in four goes up to 10 variables / 14 clauses
@@ -267,9 +267,9 @@ impl World for SatWorld {
         let sparse = !chain && c.below(10) == 0;
         // one run in fourteen: a handful of clauses, one of them long (9-14 literals of mixed polarity), with few
         // enough literal occurrences for the hash clause of the property to apply
-        // one run in 3000: a huge formula (20 000 - 40 000 variables, 85 000 - 140 000 literal occurrences) whose
+        // one run in 5000: a huge formula (20 000 - 40 000 variables, 85 000 - 140 000 literal occurrences) whose
         // single-decision states are all visited by one sweep
-        let huge = !chain && !sparse && c.below(3000) == 0;
+        let huge = !chain && !sparse && c.below(5000) == 0;
         let longc = !chain && !sparse && !huge && c.below(14) == 0;
         // one run in fourteen: 18-45 clauses that share 3-5 hub literals (watch lists with tens of entries) and
         // many decide/pop cycles on the hubs, so that watches migrate between long lists in every order
@@ -299,10 +299,10 @@ impl World for SatWorld {
                 v.push(Op { c: 0, k: if j == 0 { K_CLAUSE } else { K_CLAUSE_EXT }, a });
             }
         };
-        // one huge formula in six mentions every variable exactly once (pairwise disjoint clauses): deciding a
+        // one huge formula in five mentions every variable exactly once (pairwise disjoint clauses): deciding a
         // literal false then removes exactly one literal occurrence, so the sweep compares the hash weights of all
         // occurrences with each other
-        let disjoint = huge && c.below(6) == 0;
+        let disjoint = huge && c.below(5) == 0;
         let nv = if disjoint { 85_000 + c.below(15_000) } else { nv };
         if disjoint {
             cfg.insert("nv".into(), nv as i64);
@@ -430,9 +430,9 @@ impl World for SatWorld {
             gen_cnf_ops(&mut c, &mut o, nv, if wide { 14 } else { 8 })
         };
         let ncallers = 1 + c.below(3);
-        // one small run in 1000 is a marathon: a long-lived solver that sees 150 000 - 250 000 decide/pop calls
+        // one small run in 1500 is a marathon: a long-lived solver that sees 150 000 - 250 000 decide/pop calls
         // (about as many decisions as pops, so the stack stays shallow and most decisions are top-level ones)
-        let marathon = !big && c.below(1000) == 0;
+        let marathon = !big && c.below(1500) == 0;
         let pop_w = if marathon { 50 } else { 15 + c.below(40) };
         if huge {
             ops.push(Op { c: 0, k: K_SWEEP, a: [0; 4] });
